@@ -151,14 +151,13 @@ func (st *State) clone() *State {
 // norm: rewrite t with the definitions recorded so far (to a fixpoint, bounded)
 func (st *State) norm(t *Term) *Term {
 	curBounds = st.bnd
-	if len(st.defs) == 0 && st.bnd != nil {
-		// re-run the smart constructors so that bounds learnt from the path condition apply
-		return substTerms(t, map[string]*Term{"\x00": True})
+	if len(st.defs) == 0 && st.bnd == nil {
+		return t
 	}
-	for i := 0; i < 8 && len(st.defs) > 0; i++ {
-		n := substTerms(t, st.defs)
-		if n == t {
-			break
+	for i := 0; i < 8; i++ {
+		n := resimp(t, st.defs, map[*Term]*Term{})
+		if n == t || n.String() == t.String() {
+			return n
 		}
 		t = n
 	}
@@ -286,6 +285,7 @@ func (st *State) recordDef(t *Term) {
 }
 
 func (st *State) assume(t *Term) {
+	curBounds = st.bnd
 	t = st.norm(t)
 	if t.IsTrue() {
 		return
@@ -1021,3 +1021,29 @@ type execErr struct{ msg string }
 func (e execErr) Error() string { return e.msg }
 
 func fail(format string, a ...interface{}) { panic(execErr{fmt.Sprintf(format, a...)}) }
+
+// canon: rewrite the handles of reference values with the equalities learnt so far, so that two
+// names of the same object (e.g. a contract result assumed equal to a global) address one heap cell
+func (st *State) canon(v Value) Value {
+	if len(st.defs) == 0 {
+		return v
+	}
+	switch x := v.(type) {
+	case Ptr:
+		if !x.H.IsInt() {
+			x.H = st.norm(x.H)
+			return x
+		}
+	case MapRef:
+		if !x.H.IsInt() {
+			x.H = st.norm(x.H)
+			return x
+		}
+	case Slice:
+		if !x.Back.IsInt() {
+			x.Back = st.norm(x.Back)
+			return x
+		}
+	}
+	return v
+}
